@@ -22,9 +22,13 @@ EXTENDS Integers, Sequences, FiniteSets, TLC, Json
 (*   OUT1 = struct{dig.Out; A *T1}         pOUT1 = *OUT1                                  *)
 (*   EPI  = struct{*dig.In; A *T1}         EPO   = struct{*dig.Out; A *T1}                *)
 (*   INOUT = struct{dig.In; dig.Out; A *T1}      ssT0 = [][]*T0                            *)
+(*   InA = struct{dig.In; A *T1}   InB = struct{dig.In; B *T0 `optional:"true"`}          *)
+(*   IN2 = struct{InA; InB}  INE = struct{InA}   (parameter objects only by embedding)    *)
+(*   OutA = struct{dig.Out; A *T1} OutB = struct{dig.Out; B *T0}  OUT2 = struct{OutA;OutB}*)
+(*   erS = a struct type with a value-receiver Error method (an error that is never nil)  *)
 Slices   == {"sT0", "sI0", "NS", "ssT0"}
 ElemOf(t) == CASE t = "sT0" -> "T0" [] t = "sI0" -> "I0" [] t = "NS" -> "T0" [] t = "ssT0" -> "sT0" [] OTHER -> t
-ErrorLike(t) == t = "err"
+ErrorLike(t) == t \in {"err", "erS"}
 Implements(t, i) == (i = "I0" /\ t \in {"T0", "T1", "T7", "NS"})
 
 \* strconv.ParseBool on the tag alphabet
@@ -54,9 +58,11 @@ FEntry(t, grp) == [ty |-> t, name |-> "", grp |-> grp, fl |-> TRUE]   \* a flatt
 (* Parameters: newParam / newParamObject / newParamObjectField / newParamGroupedSlice *)
 
 \* a type used as a parameter outside any tag context
+InObjs == {"IN1", "IN2", "INE"}
 ParamOfType(t) ==
-  CASE t \in {"OUT1", "pOUT1", "EPO", "INOUT"} -> Bad         \* cannot depend on result objects
-    [] t = "IN1"  -> Good(<<PEntry("T1", "", "", FALSE, FALSE)>>)
+  CASE t \in {"OUT1", "pOUT1", "EPO", "INOUT", "OUT2"} -> Bad \* cannot depend on result objects
+    [] t \in {"IN1", "INE"} -> Good(<<PEntry("T1", "", "", FALSE, FALSE)>>)
+    [] t = "IN2"  -> Good(<<PEntry("T1", "", "", FALSE, FALSE), PEntry("T0", "", "", TRUE, FALSE)>>)
     [] t = "EPI"  -> Bad                                      \* embeds *dig.In
     [] t = "pIN1" -> Bad                                      \* pointer to a parameter object
     [] OTHER      -> Good(<<PEntry(t, "", "", FALSE, FALSE)>>)
@@ -75,7 +81,7 @@ ParamField(f) ==
   ELSE
      LET p == ParamOfType(f.ty) IN
      IF ~p.ok THEN Bad
-     ELSE IF f.ty = "IN1" THEN p                \* nested object: name / optional tags are not read
+     ELSE IF f.ty \in InObjs THEN p             \* nested object: name / optional tags are not read
      ELSE IF ~BoolOK(f.opt) THEN Bad
      ELSE Good(<<PEntry(f.ty, f.name, "", BoolTrue(f.opt), FALSE)>>)
 
@@ -108,14 +114,16 @@ AsList(a) == CASE a = "I0" -> <<"I0">> [] a = "IX" -> <<"IX">> [] a = "I0,I0" ->
 
 \* a type as result with the options name / group / as in force
 ResultOfType(t, name, group, as) ==
-  IF t \in {"IN1", "pIN1", "EPI", "INOUT"} THEN Bad          \* cannot provide parameter objects
+  IF t \in {"IN1", "pIN1", "EPI", "INOUT", "IN2", "INE"} THEN Bad   \* cannot provide parameter objects
   ELSE IF ErrorLike(t) THEN Bad                              \* error inside a result object
-  ELSE IF t = "OUT1" THEN
+  ELSE IF t \in {"OUT1", "OUT2"} THEN
        IF name # "" \/ group # "" THEN Bad
-       ELSE \* the field A *T1 of the nested object, with the As list still in force
-            IF \E j \in DOMAIN AsList(as) : ~Implements("T1", AsList(as)[j]) THEN Bad
-            ELSE IF AsList(as) = <<>> THEN Good(<<REntry("T1", "", "")>>)
-            ELSE Good([j \in 1..Len(AsList(as)) |-> REntry(AsList(as)[j], "", "")])
+       ELSE \* the fields of the nested object(s), with the As list still in force
+            LET fts == IF t = "OUT1" THEN <<"T1">> ELSE <<"T1", "T0">>
+                one(ft) == IF AsList(as) = <<>> THEN <<REntry(ft, "", "")>>
+                           ELSE [j \in 1..Len(AsList(as)) |-> REntry(AsList(as)[j], "", "")]
+            IN  IF \E x \in DOMAIN fts : \E j \in DOMAIN AsList(as) : ~Implements(fts[x], AsList(as)[j]) THEN Bad
+                ELSE IF Len(fts) = 1 THEN Good(one(fts[1])) ELSE Good(one(fts[1]) \o one(fts[2]))
   ELSE IF t \in {"EPO", "pOUT1"} THEN Bad
   ELSE IF group # "" THEN
        LET g == GroupParse(group)
@@ -206,8 +214,8 @@ NoOpts == [name |-> "", group |-> "", as |-> ""]
 
 Fld(x, t, n, op, g) == [x |-> x, ty |-> t, name |-> n, opt |-> op, grp |-> g]
 
-FieldTypesP == {"T0", "sT0", "IN1", "OUT1", "pIN1", "err"}
-FieldTypesR == {"T0", "sT0", "OUT1", "IN1", "pOUT1", "err", "NS", "ssT0"}
+FieldTypesP == {"T0", "sT0", "IN1", "OUT1", "pIN1", "err", "int", "IN2"}
+FieldTypesR == {"T0", "sT0", "OUT1", "IN1", "pOUT1", "err", "NS", "ssT0", "erS", "OUT2"}
 NamesT  == {"", "n"}
 OptT    == {"", "true", "false", "yes"}
 GroupT  == {"", "g", "g,flatten", "g,soft", "g,bogus", ",flatten", "g,flatten,soft"}
@@ -224,13 +232,15 @@ Item(k, t, fs, iu) == [k |-> k, ty |-> t, fs |-> fs, iu |-> iu]
 Plain(t) == Item("plain", t, <<>>, "")
 
 ParamItems ==
-  {Plain(t) : t \in {"T0", "I0", "sT0", "err", "int", "IN1", "pIN1", "OUT1", "pOUT1", "EPI", "EPO", "INOUT"}}
+  {Plain(t) : t \in {"T0", "I0", "sT0", "err", "int", "IN1", "pIN1", "OUT1", "pOUT1", "EPI", "EPO", "INOUT",
+                     "erS", "IN2", "INE", "OUT2"}}
   \cup {Item("in", "", <<f>>, iu) : f \in FieldsP, iu \in {"", "true", "maybe"}}
   \cup {Item("in", "", <<f, g>>, iu) : f \in FieldsP2, g \in FieldsP2, iu \in {"", "true"}}
   \cup {Item("in", "", <<>>, "")}
 
 ResultItems ==
-  {Plain(t) : t \in {"T0", "I0", "sT0", "NS", "int", "IN1", "pIN1", "OUT1", "pOUT1", "EPI", "EPO", "INOUT"}}
+  {Plain(t) : t \in {"T0", "I0", "sT0", "NS", "int", "IN1", "pIN1", "OUT1", "pOUT1", "EPI", "EPO", "INOUT",
+                     "erS", "OUT2", "IN2"}}
   \cup {Item("out", "", <<f>>, "") : f \in FieldsR}
   \cup {Item("out", "", <<f, g>>, "") : f \in FieldsR2, g \in FieldsR2}
   \cup {Item("out", "", <<>>, "")}
@@ -250,11 +260,11 @@ CasesParams2 == {[s |-> Fn(<<p, q>>, FALSE, <<Plain("T7")>>), o |-> NoOpts] :
 CasesResults == {[s |-> Fn(<<>>, FALSE, <<r>>), o |-> NoOpts] : r \in ResultItems}
                 \cup {[s |-> Fn(<<>>, FALSE, <<r, Plain("err")>>), o |-> NoOpts] : r \in ResultItems}
 CasesResults2 == {[s |-> Fn(<<>>, FALSE, <<r, q>>), o |-> NoOpts] :
-                    r \in {Plain("T0"), Plain("err"), Item("out", "", <<Fld(TRUE, "T0", "", "", "")>>, "")},
-                    q \in {Plain("T0"), Plain("T1"), Plain("err"), Item("out", "", <<Fld(TRUE, "T0", "n", "", "")>>, ""),
+                    r \in {Plain("T0"), Plain("err"), Plain("erS"), Item("out", "", <<Fld(TRUE, "T0", "", "", "")>>, "")},
+                    q \in {Plain("T0"), Plain("T1"), Plain("err"), Plain("erS"), Plain("OUT2"), Item("out", "", <<Fld(TRUE, "T0", "n", "", "")>>, ""),
                            Item("out", "", <<Fld(TRUE, "T0", "", "", "g")>>, "")}}
 CasesOpts    == {[s |-> Fn(<<>>, FALSE, <<r>>), o |-> o] :
-                    r \in {Plain("T0"), Plain("sT0"), Plain("NS"), Plain("I0"), Plain("OUT1"),
+                    r \in {Plain("T0"), Plain("sT0"), Plain("NS"), Plain("I0"), Plain("OUT1"), Plain("OUT2"),
                            Item("out", "", <<Fld(TRUE, "T0", "n", "", "")>>, "")},
                     o \in OptSet}
 CasesNonFunc == {[s |-> NonFunc(k), o |-> NoOpts] : k \in {"nil", "int", "struct", "ptrstruct", "nilfunc"}}
